@@ -63,6 +63,28 @@ TIERS = {  # number of form deviations -> largest number of physics deviations e
     'quick':    {0: 3, 1: 2, 2: 0},
     'thorough': {0: 4, 1: 2, 2: 1, 3: 0},
 }
+# Sign/zero-pattern slice (after seeded wave 6): the FULL product of the zero / positive / negative members of beta_2 and
+# beta_3 and the zero / positive members of gamma and alpha - every regime of the quantifier "for any alpha >= 0, beta2,
+# beta3, gamma >= 0", among them third-order dispersion alone (beta_2 == 0 exactly, beta_3 != 0 of either sign) - at
+# wide-band anchor points of the lattice: the white field on the 640 GS/s grid (|w| up to 2 rad/ps, rms of
+# beta_3 w^3 L / 6 = 2 rad at 20 km), where beta_3 shapes the solution (asserted per case: the reference solution is at
+# least B3_EFFECT_MIN away, relative L2, from the reference solution with beta_3 = 0 - otherwise the member would be vacuous).
+# On the lattice itself (deviations from a baseline on the 160 GS/s grid) beta_3 moves the field by 4e-4 only.
+# (axis, members in both tiers, members added by the thorough tier)
+SIGN = [
+    ('b2',     [0.0, 25.0, -20.0,
+                0.1, -0.1], []),             # +-0.1 ps^2/km: near the zero-dispersion wavelength; rms of b2 w^2 L/2 = 1.8 rad, the size of
+                                             # the beta_3 phase - the steps resolve the dispersion and the bound is K*phi_max*Phi_NL
+                                             # (with +25 / -20 on this grid it is the looser K_LIN*phi_max*lin_rms term)
+    ('b3',     [0.0, 0.2, -0.2], []),
+    ('gamma',  [0.0, 1.3], [5.0]),
+    ('alpha',  [0.0, 0.2], [0.5]),
+    ('kind',   ['white'], []),
+    ('grid',   ['sps+R:640G'], []),
+    ('N',      [64], [65, 128]),
+    ('layout', ['1pol', '2pol-ne'], ['2pol-y0', '2pol-x0']),
+]
+B3_EFFECT_MIN = 0.1
 NAMES = [a for a, _, _ in PHYS + FORM]
 NPHYS = len(PHYS)
 PHI0 = PHYS[8][1][0]
@@ -125,6 +147,17 @@ def lattice(tier):
                 for i, v in zip(sel, vals):
                     p[i] = v
                 out.append(tuple(p))
+    return out
+
+
+def sign_slice(tier):
+    """full product of the SIGN members over the baseline of the lattice; simplest (first members) first"""
+    ax = [(n, q + (t if tier == 'thorough' else [])) for n, q, t in SIGN]
+    base = dict(zip(NAMES, (v[0] for _, v, _ in PHYS + FORM)))
+    out = []
+    for vals in sorted(itertools.product(*[range(len(v)) for _, v in ax]), key=lambda t: (sum(t), t)):
+        d = dict(base, **{n: v[i] for (n, v), i in zip(ax, vals)})
+        out.append(tuple(d[n] for n in NAMES))
     return out
 
 
@@ -298,7 +331,7 @@ def sha(a):
 
 # ----------------------------------------------------------------------------- the case
 def case_fn(case):
-    c = dict(zip(NAMES + ['seed', 'full_ladder'], case))
+    c = dict(zip(NAMES + ['seed', 'full_ladder', 'slice'], case))      # 'slice' only on the cases of the sign-pattern slice
     nphys = sum(c[n] != v[0] for n, v, _ in PHYS)
     nform = sum(c[n] != v[0] for n, v, _ in FORM)
     kind, N, Psym, layout, dtype, callf, nkind, grid = [c[n] for n in ('kind', 'N', 'P', 'layout', 'dtype', 'call', 'noise', 'grid')]
@@ -561,8 +594,12 @@ def case_fn(case):
             stats['noise_folded_into_field'] = 1
     viol += vA
     obs += obA
+    # sign-pattern slice: how far the reference solution is from the one with beta_3 = 0 (smallest over the non-empty rows)
+    b3_effect = None
+    if c.get('slice') and b3 != 0 and P > 0 and L > 0:
+        b3_effect = min(relerr(ref_of(r)[0], R.nlse_ref(r, L, a1, b2, 0.0, g, fs=fs)[0]) for r in rowsA if np.any(r))
     return res(viol=viol, obs=tuple(obs), nontrivial=bool(steps > 1), stats=stats,
-               payload={'steps': steps, 'rmax': max(ratios)})
+               payload={'steps': steps, 'rmax': max(ratios), 'b3_effect': b3_effect})
 
 
 # ----------------------------------------------------------------------------- reference self-check
@@ -620,6 +657,26 @@ def run(ctx):
     cases = [p + (ctx.seed, not ctx.quick) for p in adm]
     # expensive cases are spread evenly by the kernel's chunking; chunk=1 keeps the tail short
     pay = ctx.pmap('lattice', case_fn, cases, horizon=WALL_HORIZON, chunk=1 if len(cases) < 600 else 4, recheck=4)
+    # ---- the sign/zero-pattern slice at the wide-band anchors (full ladder in both tiers)
+    sl = [p for p in sign_slice(tier) if admissible(p)]
+    sax = [(n, q + (t if tier == 'thorough' else [])) for n, q, t in SIGN]
+    ctx.space('sign-pattern-slice(cases)', len(sl))
+    ctx.rule(f'sign-pattern slice: the full product of {dict(sax)} over the baseline (every zero/sign pattern of beta_2, beta_3, '
+             f'gamma, alpha on a wide-band field: white spectrum on the 640 GS/s grid), same case function and oracles as the '
+             f'lattice, ladder {LADDER} always; for beta_3 != 0 the reference solution must differ from the reference solution '
+             f'with beta_3 = 0 by >= {B3_EFFECT_MIN} relative L2 (harness assertion: the member is not vacuous)')
+    pay2 = ctx.pmap('sign-patterns', case_fn, [p + (ctx.seed, True, True) for p in sl], horizon=WALL_HORIZON, chunk=1, recheck=2)
+    eff = [p['b3_effect'] for p in pay2 if p and p['b3_effect'] is not None]
+    # (the effect is a property of the reference alone; cases the library aborted have no payload and are not looked at)
+    assert not eff or min(eff) >= B3_EFFECT_MIN, f'sign-pattern slice is vacuous in beta_3: smallest effect {min(eff)}'
+    ix = [NAMES.index(n) for n in ('b2', 'b3', 'gamma', 'alpha')]
+    pats = {tuple(int(np.sign(p[i])) for i in ix) for p in sl}
+    assert len(pats) == 36, f'sign-pattern slice covers {len(pats)} of the 36 patterns'
+    ctx.extra['sign_pattern_slice'] = {'cases': len(sl), 'patterns_of_sign(b2,b3,gamma,alpha)': len(pats),
+                                       'beta3_effect_on_reference_min_max': [round(min(eff), 4), round(max(eff), 4)] if eff else None,
+                                       'split_steps_main_run_max': int(max([p['steps'] for p in pay2 if p] or [0])),
+                                       'max_error_over_bound_any_rung': round(max([p['rmax'] for p in pay2 if p] or [0.0]), 4)}
+    pay = pay + pay2
     st = [p['steps'] for p in pay if p]
     es = [p['rmax'] for p in pay if p]
     ctx.extra['split_steps_main_run'] = {'min': int(min(st)), 'max': int(max(st)), 'cases_with_more_than_one_step': int(sum(s > 1 for s in st))}
